@@ -111,6 +111,10 @@ cnb = z3.Function('cnb', Int, Int, ISeq)            # simple graph g: the closed
 nbj = z3.Function('nbj', Int, Int, Int)             # position of v's closed neighbourhood in the duplicate-free list of neighbourhoods
 nbv = z3.Function('nbv', Int, Int, Int)             # a vertex whose closed neighbourhood is the j-th listed one
 isorted = z3.Function('isorted', ISeq, ISeq)        # sorted(X): a function of the list (no schema needed where only its identity matters)
+cntstar = z3.Function('cntstar', Asg, Int, CSeq, Int, Int, Int)   # cntstar(a, off, C, i, t): how many of the variables off+1+j, j < t, with i in C[j] are true
+ipos = z3.Function('ipos', ISeq, Int, Int)            # a position of x in the list (Skolem witness of imem)
+imemp = z3.Function('imemp', ISeq, Int, Int, Bool)     # x occurs among the first n entries
+imem = z3.Function('imem', ISeq, Int, Bool)           # x occurs in the list
 aps = z3.Function('aps', Int, Int, CSeq)               # the arithmetic progressions of length k inside 1..N, in the order _vdw_ap_generator yields them
 pairlits = z3.Function('pairlits', Int, ISeq, ISeq)   # [cvar(g, S[p], S[q]) for p < q] in combinations(S, 2) order
 pl1 = z3.Function('pl1', ISeq, Int, Int)              # position p of the t-th pair of combinations(S, 2)
@@ -212,7 +216,7 @@ def cmp_op(op, lhs, rhs):
                  z3.If(op == S('<'), lhs < rhs, z3.If(op == S('>'), lhs > rhs, z3.BoolVal(False))))))
 
 
-FUNCS = dict(aps=aps, pairlits=pairlits, pl1=pl1, pl2=pl2, sqr=sqr, isqf=isqf, isorted=isorted, cnb=cnb, nbj=nbj, nbv=nbv, pvar=pvar, lnbrs=lnbrs, gadj=gadj, degsum=degsum, cvar=cvar, tlen=tlen, tcoef=tcoef, tlit=tlit, tunit=tunit, tnegc=tnegc, tset=tset, wsum=wsum, thaszero=thaszero,
+FUNCS = dict(cntstar=cntstar, imemp=imemp, imem=imem, ipos=ipos, aps=aps, pairlits=pairlits, pl1=pl1, pl2=pl2, sqr=sqr, isqf=isqf, isorted=isorted, cnb=cnb, nbj=nbj, nbv=nbv, pvar=pvar, lnbrs=lnbrs, gadj=gadj, degsum=degsum, cvar=cvar, tlen=tlen, tcoef=tcoef, tlit=tlit, tunit=tunit, tnegc=tnegc, tset=tset, wsum=wsum, thaszero=thaszero,
              tmaxabs=tmaxabs, tnonneg=tnonneg, tmpos=tmpos, tzpos=tzpos, mkcon=mkcon, olen=olen, osnoc=osnoc, otake=otake, holds=holds,
              osat=osat, oappc=oappc, omaxabs=omaxabs, ohaszero=ohaszero, onormal=onormal,
              ilen=ilen, iget=iget, inil=inil, isnoc=isnoc, iapp=iapp, ineg=ineg, haszero=haszero,
@@ -396,6 +400,18 @@ def _on_terms(terms_by_decl):
         if z3.is_app(A) and A.decl().kind() == z3.Z3_OP_STORE:
             # CnfSem.lean iofarr_store_ge: a store at or beyond the length is invisible
             out.append(z3.Implies(A.arg(1) >= n, iofarr(A, n) == iofarr(A.arg(0), n)))
+        if z3.is_app(A) and A.decl().kind() == z3.Z3_OP_SELECT and z3.is_app(A.arg(0)) and A.arg(0).decl().kind() == z3.Z3_OP_STORE:
+            # a row of an updated table: the updated row or an untouched one (array axioms + congruence; gives the schemas above their terms)
+            R, j, NR = A.arg(0).children()
+            n2 = n
+            if z3.is_app(n) and n.decl().kind() == z3.Z3_OP_SELECT and z3.is_app(n.arg(0)) and n.arg(0).decl().kind() == z3.Z3_OP_STORE and z3.eq(n.arg(1), A.arg(1)):
+                LR, j2, NL = n.arg(0).children()
+                if z3.eq(j, j2):
+                    out.append(z3.Implies(A.arg(1) == j, iofarr(A, n) == iofarr(NR, NL)))
+                    out.append(z3.Implies(A.arg(1) != j, iofarr(A, n) == iofarr(z3.Select(R, A.arg(1)), z3.Select(LR, A.arg(1)))))
+                    continue
+            out.append(z3.Implies(A.arg(1) == j, iofarr(A, n) == iofarr(NR, n)))
+            out.append(z3.Implies(A.arg(1) != j, iofarr(A, n) == iofarr(z3.Select(R, A.arg(1)), n)))
     for (sq, i) in terms_by_decl.get('iget', []):
         if z3.is_app(sq) and sq.decl().name() == 'iofarr':
             A, n = sq.children()
@@ -516,6 +532,38 @@ def _on_terms(terms_by_decl):
             out.append(z3.Implies(z3.And(0 <= t_, t_ < ilen(sq)),
                                   z3.And(0 <= pl1(S_, t_), pl1(S_, t_) < pl2(S_, t_), pl2(S_, t_) < ilen(S_),
                                          iget(sq, t_) == cvar(g_, iget(S_, pl1(S_, t_)), iget(S_, pl2(S_, t_))))))
+    for (a_, off_, C_, i_, t_) in terms_by_decl.get('cntstar', []):
+        # CnfSem.lean cntstar_zero / cntstar_succ / cntstar_pred (definition by recursion on t)
+        step = lambda tt: z3.If(z3.And(imem(cget(C_, tt), i_), lit_true(a_, off_ + 1 + tt)), 1, 0)
+        out += [z3.Implies(t_ == 0, cntstar(a_, off_, C_, i_, t_) == 0),
+                z3.Implies(t_ >= 0, cntstar(a_, off_, C_, i_, t_ + 1) == cntstar(a_, off_, C_, i_, t_) + step(t_)),
+                z3.Implies(t_ >= 1, cntstar(a_, off_, C_, i_, t_) == cntstar(a_, off_, C_, i_, t_ - 1) + step(t_ - 1))]
+    for (S_, x_) in terms_by_decl.get('imem', []):
+        # CnfSem.lean imem_witness (Skolem position mpos2) / imem_of_get
+        out.append(z3.Implies(imem(S_, x_), z3.And(0 <= ipos(S_, x_), ipos(S_, x_) < ilen(S_), iget(S_, ipos(S_, x_)) == x_)))
+    for (S_, k_) in terms_by_decl.get('iget', []):
+        for (S2_, x_) in terms_by_decl.get('imem', []):
+            if S_.eq(S2_):
+                out.append(z3.Implies(z3.And(0 <= k_, k_ < ilen(S_), iget(S_, k_) == x_), imem(S_, x_)))
+    for (S_, n_, x_) in terms_by_decl.get('imemp', []):
+        # CnfSem.lean imemp_zero / imemp_succ / imemp_pred / imemp_full
+        out += [z3.Implies(n_ <= 0, z3.Not(imemp(S_, n_, x_))),
+                z3.Implies(z3.And(0 <= n_, n_ < ilen(S_)), imemp(S_, n_ + 1, x_) == z3.Or(imemp(S_, n_, x_), iget(S_, n_) == x_)),
+                z3.Implies(z3.And(1 <= n_, n_ <= ilen(S_)), imemp(S_, n_, x_) == z3.Or(imemp(S_, n_ - 1, x_), iget(S_, n_ - 1) == x_)),
+                z3.Implies(n_ >= ilen(S_), imemp(S_, n_, x_) == imem(S_, x_))]
+        if z3.is_app(S_) and S_.decl().name() == 'cget' and z3.is_app(S_.arg(0)) and S_.arg(0).decl().name() == 'combs' \
+                and z3.is_app(S_.arg(0).arg(0)) and S_.arg(0).arg(0).decl().name() == 'apseq':
+            # CnfSem.lean combs_apseq_fresh: a listed subset of a progression has no repeated entry
+            C_, i_ = S_.arg(0), S_.arg(1)
+            for m_ in (n_, n_ - 1):
+                out.append(z3.Implies(z3.And(0 <= i_, i_ < clen(C_), 0 <= m_, m_ < ilen(S_)), z3.Not(imemp(S_, m_, iget(S_, m_)))))
+    # CnfSem.lean combs_apseq_range: every entry of a listed subset lies in the progression
+    for (sq, p_) in terms_by_decl.get('iget', []):
+        if z3.is_app(sq) and sq.decl().name() == 'cget' and z3.is_app(sq.arg(0)) and sq.arg(0).decl().name() == 'combs' \
+                and z3.is_app(sq.arg(0).arg(0)) and sq.arg(0).arg(0).decl().name() == 'apseq':
+            C_, i_ = sq.arg(0), sq.arg(1)
+            st_, n_, k_ = C_.arg(0).arg(0), C_.arg(0).arg(1), C_.arg(1)
+            out.append(z3.Implies(z3.And(k_ >= 0, 0 <= i_, i_ < clen(C_), 0 <= p_, p_ < ilen(sq)), z3.And(st_ <= iget(sq, p_), iget(sq, p_) < st_ + n_)))
     for (g_, S_) in terms_by_decl.get('pairlits', []):
         # the same facts at the two witness positions (a zero entry, an entry of largest magnitude), spelled out in ONE round so that
         # "no zero literal / all variables of the formula" follows without deep chains of instance rounds
